@@ -9,7 +9,7 @@ from harness.common import cps, uncps
 from harness.props import c03
 from harness.props.c02 import chain_plan
 
-BRIDGE = ('Gemato.Bridge.FindTop', 'Gemato.Bridge.Profile', 'Gemato.Bridge.SrcUpdate', 'Gemato.Bridge.SrcLoader', 'Gemato.Bridge.SrcText', 'Gemato.Bridge.SrcCodec', 'Gemato.Bridge.SrcProfile')
+BRIDGE = ('Gemato.Bridge.FindTop', 'Gemato.Bridge.Profile', 'Gemato.Bridge.SrcUpdate', 'Gemato.Bridge.SrcLoader', 'Gemato.Bridge.SrcText', 'Gemato.Bridge.SrcCodec', 'Gemato.Bridge.SrcProfile', 'Gemato.Bridge.SrcCli')
 PROPS = ['Gemato.Props.C13', 'Gemato.Props.C13b', 'Gemato.Props.C03b']
 FORMATS = ['', '.gz', '.bz2', '.lzma', '.xz']
 
